@@ -132,7 +132,20 @@ Verdict binderProp(Ctx& c) {
   if (form <= 1) e = mk(form == 0 ? TID::FORALL : TID::EXISTS, {decl, dom, body});
   else if (form == 2) e = mk(TID::NT_DECLARATIVE_EXPR, {decl, dom, body});
   else if (form == 3) { const Ty vt = g.scope.back().type; EP value = g.genTerm(vt, 1); e = mk(TID::NT_IMPERATIVE_EXPR, {value, mk(TID::ITERATE, {decl, dom}), body}); }
-  else { EP init = g.genTerm(et, 1); g.scope = saved; EP var = g.declare(et, true); EP step = g.genTerm(et, 1); e = mk(TID::NT_RECURSIVE_FULL, {var, init, g.genLogic(1), step}); }
+  else {
+    EP init = g.genTerm(et, 1); g.scope = saved; EP var = g.declare(et, true); EP step = g.genTerm(et, 1);
+    // the condition mentions a variable of the pattern in an operation that depends on its structure (projection / arithmetic)
+    EP cond = g.genLogic(1);
+    if (g.scope.size() > saved.size() && c.chance(3, 4)) {
+      const auto& v = g.scope[saved.size() + static_cast<size_t>(c.ipick(0, static_cast<int>(g.scope.size() - saved.size()) - 1))];
+      EP use = mkName(TID::ID_LOCAL, v.name);
+      EP self = v.type.isTuple() ? mk(TID::EQUAL, {mkIdx(TID::SMALLPR, {1}, {use}), mkIdx(TID::SMALLPR, {1}, {mkName(TID::ID_LOCAL, v.name)})})
+              : g.integral(v.type) || (v.type.isBase() && v.type.base == "Z") ? mk(TID::GREATER_OR_EQ, {mk(TID::PLUS, {use, mkInt(1)}), mkName(TID::ID_LOCAL, v.name)})
+              : mk(TID::EQUAL, {use, mkName(TID::ID_LOCAL, v.name)});
+      cond = mk(c.coin() ? TID::AND : TID::OR, {self, cond});
+    }
+    e = mk(TID::NT_RECURSIVE_FULL, {var, init, cond, step});
+  }
   g.scope = saved;
   int applied = 0;
   const int swaps = c.ipick(0, 3);
